@@ -383,13 +383,18 @@ def _gen_load(rng, fmt):
 KTOK = ["3", "4", "0", "1 : 0", "2 : 1 0", "3 : 1 2 0", "1 :", ": 0", "c x",
         "", " ", "2 : 3 0", "1 : 2 3 0", "1 : 3 0", "3 : 2 0", "2 : 2 0",
         "4 : 1 0", "1 : 4 0", "x", "1 : x 0", "-1", "2 : 1", "1 : 0 0",
-        "1 : 2 0 3 0", " c y", "1 : 2 : 0", "+3", "3 3", "2 : 1 1 0"]
+        "1 : 2 0 3 0", " c y", "1 : 2 : 0", "+3", "3 3", "2 : 1 1 0",
+        "1_2", "2 : 1_0 0", "1_2 : 1 0", "\u0663", "2 : \u0661 0",
+        "2 :\x1c1 0", "3\x1c", "2 : 1\u20280"]
 DTOK = ["p edge 3 2", "p edge 3 1", "p edge 2 0", "e 1 2", "e 2 3", "e 2 1",
         "e 3 1", "e 1 1", "e 1 4", "e 0 1", "c x", "", " ", "p col 3 1",
         "e 1", "e 1 2 3", "x 1 2", "edge 1 2", "e a b", "p edge x 1",
-        "p edge 3", "p edge -1 0", "n 1 1", "e 1 2", "e +1 2"]
+        "p edge 3", "p edge -1 0", "n 1 1", "e 1 2", "e +1 2",
+        "e 1_0 2", "p edge 1_2 1", "pq edge 3 1", "exx 1 2", "e \u0661 2",
+        "e\x1c1 2", "p edge 3\x1c1", "e 1 2\u2028"]
 MTOK = ["2 2", "1 1", "0 0", "2 3", "1 0", "0 1", "1", "0", "1 1 0", "# c",
-        "", " ", "2", "x", "1 # c", "-1 2", "0 1 1", "3", "1 0 1 0"]
+        "", " ", "2", "x", "1 # c", "-1 2", "0 1 1", "3", "1 0 1 0",
+        "0_1 1", "\u0661 0", "1\x1c0", "1_0 1"]
 
 
 def _valid_lines(rng, fmt, gtype):
